@@ -52,21 +52,22 @@ Definition check_id_length (id : bytes) : verdict :=
   else if max_id_length <? len id then VTooLarge true
   else VOk.
 
+(* checkIDFormat(id, kind, sigil): a domain part (a colon) and the sigil *)
+Definition id_format (id : bytes) (sigil : N) : bool :=
+  mem_byte ch_colon id && match id with c :: _ => c =? sigil | [] => false end.
+
 (* checkID(id, kind, sigil) *)
 Definition check_id (id : bytes) (sigil : N) : verdict :=
-  if negb (mem_byte ch_colon id) then VErr else
-  match id with
-  | [] => VErr
-  | c :: _ => if negb (c =? sigil) then VErr else check_id_length id
-  end.
+  if id_format id sigil then check_id_length id else VErr.
 
 Definition lenient_version (v : bytes) : bool := mem_bytes v gen_lenient_byte_limit_versions.
 
 Definition pseudo_id_version : bytes := bs "org.matrix.msc4014".
 
-(* CheckFields, on the values its getters return ([room] is what RoomID() returns): the limits
-   that are not lenient (JSON size, code points of type, state key and sender) come first, then
-   the byte sizes; the room ID, whose code points the parsers have checked, comes last *)
+(* CheckFields, on the values its getters return ([room] is what RoomID() returns): everything
+   that is not lenient comes first (reference lists, JSON size, code points of type, state key
+   and sender, the sender's format - repair of F100), then the byte sizes of type, state key,
+   sender and, last, of the room ID, whose code points the parsers have checked *)
 Definition check_fields (v : bytes) (refs_nil : bool) (json_len : N) (type : bytes)
     (state_key : option bytes) (sender room : bytes) : verdict :=
   if refs_nil then VErr
@@ -75,10 +76,11 @@ Definition check_fields (v : bytes) (refs_nil : bool) (json_len : N) (type : byt
   else if match state_key with Some k => max_id_length <? rune_count k | None => false end
     then VTooLarge false
   else if max_id_length <? rune_count sender then VTooLarge false
+  else if negb (bytes_eqb v pseudo_id_version) && negb (id_format sender 64) then VErr
   else if max_id_length <? len type then VTooLarge (lenient_version v)
   else if match state_key with Some k => max_id_length <? len k | None => false end
     then VTooLarge (lenient_version v)
-  else match (if bytes_eqb v pseudo_id_version then check_id_length sender else check_id sender 64) with
+  else match check_id_length sender with
        | VOk => check_id_length room
        | e => e
        end.
